@@ -375,6 +375,55 @@ func GenRequests(t *rapid.T, sh *Shape) []Request {
 			r.Names, r.Types = append(r.Names, y.name), append(r.Types, y.typ)
 		}
 		reqs = append(reqs, r)
+		// the same refusals are owed by the constructors built on top of ForProductN: ForShapeN and BiMapS/B/I/F
+		for k := 0; k < 2; k++ {
+			n := rapid.IntRange(2, 9).Draw(t, "arityShape")
+			r := Request{Prop: "C02", API: "shapeHostile", N: n, ByName: true, Expect: "panic", NT: true}
+			mode := rapid.SampledFrom([]string{"unknown", "near", "few", "fewHidden"}).Draw(t, "shapeHostility")
+			bad := rapid.IntRange(0, n-1).Draw(t, "badpos")
+			for j := 0; j < n; j++ {
+				y := nameOK[rapid.IntRange(0, len(nameOK)-1).Draw(t, "pick")]
+				name, typ := y.name, y.typ
+				if j == bad && mode == "unknown" {
+					name = absentKey
+				}
+				if j == bad && mode == "near" {
+					typ = nearTypes(y.typ)[0]
+				}
+				r.Names, r.Types = append(r.Names, name), append(r.Types, typ)
+			}
+			switch mode {
+			case "few":
+				r.Given = rapid.IntRange(1, n-1).Draw(t, "given")
+			case "fewHidden":
+				r.Given, r.HiddenCap = rapid.IntRange(1, n-1).Draw(t, "given"), true
+			}
+			r.Why = "ForShapeN: " + mode
+			r.Classes = []string{"shape-" + mode}
+			reqs = append(reqs, r)
+		}
+		for _, y := range nameOK {
+			cls := ""
+			if u := utype(y.typ); u != nil {
+				cls = u.Class
+			}
+			if cls == "" {
+				continue
+			}
+			// a field of the class exists; ask for it with another member of the class as the stored type
+			var wrong string
+			for _, c := range map[string][]string{"string": {"string", "ut.MyStr"}, "bytes": {"[]byte", "ut.MyBytes"}, "int": {"int8", "int16", "int32", "int64", "int", "ut.MyInt16", "ut.MyInt", "ut.MyInt64"}, "float": {"float32", "float64", "ut.MyF32", "ut.MyF64"}}[cls] {
+				if c != y.typ {
+					wrong = c
+					break
+				}
+			}
+			reqs = append(reqs, Request{Prop: "C02", API: "bimapxHostile", N: 1, ByName: true, Names: []string{y.name}, Types: []string{wrong, y.typ}, Expect: "panic", NT: true,
+				Why: fmt.Sprintf("BiMapX: field %s has type %s, not %s", y.name, y.typ, wrong), Classes: []string{"bimapx-wrong-stored-type"}, Extra: map[string]any{"class": cls}})
+			reqs = append(reqs, Request{Prop: "C02", API: "bimapxHostile", N: 1, ByName: true, Names: []string{absentKey}, Types: []string{y.typ, y.typ}, Expect: "panic", NT: true,
+				Why: "BiMapX: unknown name", Classes: []string{"bimapx-unknown-name"}, Extra: map[string]any{"class": cls}})
+			break
+		}
 		// reflector given the wrong dynamic argument
 		reqs = append(reqs, Request{Prop: "C02", API: "rejects", N: 1, ByName: true, Names: []string{x.name}, Types: []string{x.typ}, Expect: "focus", Foci: []int{x.entry}, Why: "Gett/Putt with anything but a pointer to the container", NT: true, Classes: []string{"reflector-wrong-argument"}})
 	}
